@@ -293,6 +293,11 @@ func recoverTable(s *session, o *opt.Options) error {
 	o = dupOptions(s.o.Options)
 	// Mask StrictReader, lets StrictRecovery doing its job.
 	o.Strict &= ^opt.StrictReader
+	if o.Strict == 0 {
+		// StrictReader was the only flag: zero would be read as DefaultStrict,
+		// which brings StrictReader back.
+		o.Strict = opt.NoStrict
+	}
 
 	// Get all tables and sort it by file number.
 	fds, err := s.stor.List(storage.TypeTable)
